@@ -156,6 +156,10 @@ fn mutations(objs: &[u8]) -> Vec<(String, Vec<u8>)> {
     for bit in [0x01u8, 0x02, 0x04] {
         v.push((format!("iin2:{bit}"), objs.to_vec()));
     }
+    // the faithful objects in a fragment that is not a complete single-fragment response
+    for flags in ["fir0fin1", "fir1fin0", "fir0fin0"] {
+        v.push((format!("ctrl:{flags}"), objs.to_vec()));
+    }
     v
 }
 
@@ -255,7 +259,13 @@ impl CaseSpace for Echo {
             target = req2;
         }
         let iin2: u8 = mlabel.strip_prefix("iin2:").and_then(|b| b.parse().ok()).unwrap_or(0);
-        let reply = app::response(app::ctrl(true, true, false, false, target[0] & 0x0F), fc::RESPONSE, 0, iin2, &mutated);
+        let (fir, fin) = match mlabel.strip_prefix("ctrl:") {
+            Some("fir0fin1") => (false, true),
+            Some("fir1fin0") => (true, false),
+            Some("fir0fin0") => (false, false),
+            _ => (true, true),
+        };
+        let reply = app::response(app::ctrl(fir, fin, false, false, target[0] & 0x0F), fc::RESPONSE, 0, iin2, &mutated);
         sim.respond(&reply);
         res.transitions += 1;
         let after: Vec<Vec<u8>> = sim.take_out().iter().filter_map(|t| t.frag().map(|f| f.to_vec())).collect();
@@ -1018,6 +1028,13 @@ impl CaseSpace for Queued {
                     format!("queued-request-not-resolved-exactly-once:{fail:?}"),
                     format!("request {i} of {n} (submitted before the {fail:?}) has {} outcomes after {} response timeouts without a connection", done.len(), n + 2),
                 ));
+                return res;
+            }
+            if done[0].contains("Shutdown") && fail != Fail::RemoveAssociation {
+                // connection loss and disable leave the master task running: the outcome names what
+                // happened (requests queued on an association that is removed are dropped with it, and
+                // the library reports that as the end of their master, which is not constrained here)
+                res.violation = Some(Violation::new("C16.U6", format!("shutdown-reported-by-a-running-master:queued:{fail:?}"), format!("request {i}: {}", done[0])));
                 return res;
             }
             if done[0].starts_with("Ok") {
